@@ -711,9 +711,77 @@ def large_dense(ctx, Network, k):
     ctx.maxstat("large_dense_max_count", float(np.diag(D @ D @ D).max()))
 
 
+def hub_graph(ctx, Network, k):
+    """A hub with hundreds / more than a thousand neighbours and a few small
+    cliques among them: products like k(k-1)(k-2)(k-3) leave the 32-bit
+    range (k >= 217, k >= 1291 for three factors).  Degree-normalised
+    measures of the hub and of the clique members against their definitions
+    evaluated with Python integers."""
+    cid = f"hub:{k}"
+    rng = ctx.rng("hub", k)
+    deg = [230, 1400, 300, 2100][k % 4]
+    n = deg + 1
+    A = np.zeros((n, n), dtype=np.int8)
+    A[0, 1:] = A[1:, 0] = 1
+    members = []
+    pos = 1
+    for size in (4, 3, 5)[: 1 + k % 3]:
+        grp = list(range(pos, pos + size))
+        pos += size
+        members += grp
+        for a in grp:
+            for b in grp:
+                if a != b:
+                    A[a, b] = 1
+    perm = rng.permutation(n)
+    A = A[np.ix_(perm, perm)]
+    inv = np.argsort(perm)
+    nodes = [int(inv[0])] + [int(inv[m]) for m in members[:4]]
+    c = Case(ctx, Network, A, False, cid, None)
+    if c.net is None:
+        return
+    ctx.count("hub_graphs")
+    nb = [set(np.flatnonzero(A[i]).tolist()) for i in range(n)]
+
+    def ordered_cliques(i, order):
+        """ordered (order-1)-tuples of mutually adjacent neighbours of i"""
+        def ext(tup, cand):
+            if len(tup) == order - 1:
+                return 1
+            return sum(ext(tup + [v], cand & nb[v]) for v in cand)
+        return ext([], set(nb[i]))
+
+    mask = np.zeros(n, dtype=bool)
+    mask[nodes] = True
+    for order in (3, 4, 5):
+        want = np.zeros(n)
+        for i in nodes:
+            kk = len(nb[i])
+            den = 1
+            for f in range(order - 1):
+                den *= (kk - f)
+            want[i] = ordered_cliques(i, order) / den if den > 0 else 0.0
+        c.check("local_cliquishness", f"{order},hub", want, order, mask=mask)
+    kdeg = np.array([len(x) for x in nb], dtype=float)
+    tri = np.array([sum(len(nb[i] & nb[j]) for j in nb[i]) / 2.0
+                    if mask[i] else 0.0 for i in range(n)])
+    with np.errstate(all="ignore"):
+        c.check("local_clustering", "hub", tri / (kdeg * (kdeg - 1) / 2),
+                mask=mask)
+    c.check("degree", "hub", kdeg, exact=True)
+    c.check("max_neighbors_degree", "hub",
+            np.array([max(kdeg[list(x)]) if x else 0 for x in nb]),
+            exact=True)
+
+
 def run(ctx):
     from pyunicorn.core.network import Network
     textbook_selfcheck()
+    # 0a. hubs (degree products beyond 32 bit)
+    for k in range(8 if ctx.thorough else 2):
+        if ctx.mine(k + 1) and ctx.want(f"hub:{k}"):
+            with ctx.guard(300):
+                hub_graph(ctx, Network, k)
     # 0. a few large dense graphs (counts beyond 16-bit ranges)
     for k in range(12 if ctx.thorough else 4):
         if ctx.mine(k) and ctx.want(f"dense:{k}"):
